@@ -98,8 +98,11 @@ pub fn run(ctx: &Ctx, rep: &mut Report) {
                 format!("((a, b?, ...r) => {{{}, n: len(r), b, s: [{}] via (t => t)}})", v, v)
             }
             _ => {
-                let v = sc.vars.iter().find(|(_, t)| *t == Ty::Num).map(|(n, _)| n.clone()).unwrap_or("1".into());
-                format!("(x => [{}!, {}.k, {}[0], {}(1), -{}, {} ^ 2, x ?? {}] via (e => e))", v, v, v, v, v, v, v)
+                // one captured number (any of them: negative, -0, inf, NaN, huge) under one operator form
+                let numeric: Vec<String> = sc.vars.iter().filter(|(_, t)| *t == Ty::Num).map(|(n, _)| n.clone()).collect();
+                let v = if numeric.is_empty() { "1".to_string() } else { rng.pick(&numeric).clone() };
+                let form = *rng.pick(&["(x => V! + x)", "(x => V ^ 2 + x)", "(x => 2 ^ V)", "(x => -V + x)", "(x => [V!, -V, V ^ 3, V % 2, 1 / V])", "(x => V ?? x)", "(x => [V][0] - V)", "(x => x - V - V)", "(x => x / V / V)", "(x => V * x ^ V)", "(x => if V < 0 then -V else V!)", "(x => {k: V}.k + x)", "(x => to_string(V) + to_string(-V))", "(x => abs(V)! + x)"]);
+                form.replace('V', &v)
             }
         };
         // every fourth program: the function is made by a factory whose parameter it captures and is
